@@ -46,10 +46,29 @@ def seeded():
     return f"{n} independent defects filed, {ok} of them defects of the current tree, {c} of those caught by the property's own check (after the strengthening noted in the last column).\n\n" + "\n".join(out) + "\n"
 
 
+def rules():
+    import importlib
+    import sys
+
+    sys.path.insert(0, VERIF)
+    out = []
+    for i in range(1, 21):
+        m = importlib.import_module(f"vlib.props.c{i:02d}")
+        out.append(f"**{m.ID}** — cases quick / thorough: {m.CASES['quick']} / {m.CASES['thorough']}; floor on judged cases: {m.FLOOR['quick']} / {m.FLOOR['thorough']}.")
+        out.append("")
+        out.append("Workload rule: " + " ".join(str(m.RULE).split()))
+        out.append("")
+        out.append("Monitor-event counters with a floor (below it the run is inconclusive): " + ", ".join(f"`{k}`" for k in sorted(getattr(m, "FLOOR_COUNTERS", {}).get("quick", {}))) + ".")
+        out.append("")
+        out.append("Assumptions / preconditions: " + "; ".join(m.ASSUMPTIONS) + ".")
+        out.append("")
+    return "\n".join(out) + "\n"
+
+
 def main():
     p = os.path.join(VERIF, "DESIGN.md")
     s = open(p).read()
-    for tag, body in (("KILL-MATRIX", kill_matrix()), ("SEEDED", seeded())):
+    for tag, body in (("KILL-MATRIX", kill_matrix()), ("SEEDED", seeded()), ("RULES", rules())):
         a, b = f"<!-- {tag} -->", f"<!-- /{tag} -->"
         if a in s and b in s:
             s = s[: s.index(a) + len(a)] + "\n" + body + s[s.index(b) :]
